@@ -55,7 +55,11 @@ type svec struct {
 	Res       string    `json:"res"`
 	Idx       int       `json:"idx"`
 	Kinds     []kindAdm `json:"kinds"`
-	Extend    int       `json:"extend"` // how often the read deadline may be moved later after the request was written
+	First     string    `json:"first"`    // repoint: kind of the transport of the first exchange
+	Second    string    `json:"second"`   // repoint: kind the same Conn is pointed at for the second exchange
+	Rule      string    `json:"rule"`     // repoint: "stream" | "dgram" | "either"
+	Admitted  []idRes   `json:"admitted"` // repoint: results admitted for the second exchange
+	Extend    int       `json:"extend"`   // how often the read deadline may be moved later after the request was written
 	// set by the harness in replay files: run only this path
 	Path string `json:"path,omitempty"`
 }
@@ -182,12 +186,24 @@ func (r *runner) clientRead(v *svec, api string) {
 	buf := make([]byte, 65535)
 	got := 0
 	var lastErr error
+	var held [][]byte
+	defer func() {
+		for k, p := range held {
+			if k < len(bodies) && !bytes.Equal(p, bodies[k]) {
+				r.mis(v, api, "message-changed-by-later-read", fmt.Sprintf("message %d as returned earlier no longer holds its octets after the following reads", k))
+				return
+			}
+		}
+	}()
 	for k := 0; k < len(bodies)+3; k++ {
 		var p []byte
 		var err error
 		switch api {
 		case "ReadMsgHeader":
 			p, err = co.ReadMsgHeader(nil)
+			if err == nil {
+				held = append(held, p)
+			}
 		case "Read":
 			var n int
 			n, err = co.Read(buf)
@@ -250,6 +266,49 @@ func checkMsg(m *dns.Msg, k int, bodies [][]byte) []byte {
 		}
 	}
 	return want
+}
+
+// The messages of the scenario arrive as datagrams on one Conn and are read one after the other (pipelined queries);
+// everything that was returned is kept and compared only after the last read: what a read handed out must not change
+// when the next one happens.
+func (r *runner) dgramRead(v *svec, api string) {
+	_, bodies := v.stream()
+	d := memnet.NewDgramConn(memnet.Addr("client"), memnet.Addr("server"), nil)
+	for _, b := range bodies {
+		d.Deliver(b)
+	}
+	d.SetDryTimeout(true)
+	co := &dns.Conn{Conn: d, UDPSize: 65535}
+	var raws [][]byte
+	var msgs []*dns.Msg
+	for range bodies {
+		if api == "dgram.ReadMsgHeader" {
+			p, err := co.ReadMsgHeader(nil)
+			if err != nil {
+				r.mis(v, api, "datagram-not-delivered", fmt.Sprintf("read %d failed: %v", len(raws), err))
+				return
+			}
+			raws = append(raws, p)
+		} else {
+			m, err := co.ReadMsg()
+			if err != nil {
+				r.mis(v, api, "datagram-not-delivered", fmt.Sprintf("read %d failed: %v", len(msgs), err))
+				return
+			}
+			msgs = append(msgs, m)
+		}
+	}
+	for k := range bodies {
+		if api == "dgram.ReadMsgHeader" {
+			if !bytes.Equal(raws[k], bodies[k]) {
+				r.mis(v, api, "message-changed-by-later-read", fmt.Sprintf("datagram %d (%d octets) as returned by ReadMsgHeader no longer holds its octets after the following read", k, len(bodies[k])))
+				return
+			}
+		} else if checkMsg(msgs[k], k, bodies) == nil {
+			r.mis(v, api, "message-changed-by-later-read", fmt.Sprintf("datagram %d as returned by ReadMsg is not the message that was sent", k))
+			return
+		}
+	}
 }
 
 // ------------------------------------------------------------------ read side, server (Server.readTCP)
@@ -679,6 +738,13 @@ func (r *runner) stream(v *svec) {
 		if want("readTCP") {
 			r.serverRead(v)
 		}
+		if len(v.ShortW) == 0 && v.EOF >= v.Total {
+			for _, api := range []string{"dgram.ReadMsgHeader", "dgram.ReadMsg"} {
+				if want(api) {
+					r.dgramRead(v, api)
+				}
+			}
+		}
 	}
 	// write paths: scenarios without a stream cut that is not a write failure
 	if len(v.ShortW) == 2 || v.EOF >= v.Total {
@@ -986,36 +1052,40 @@ func sockPath(tag string) string {
 }
 
 // idKind: the peer sends the first dl replies of the inbox over a real socket of the given kind.
-func (r *runner) idKind(v *svec, i int, ka kindAdm, waits bool) {
-	q := newQuery(i)
-	var replies [][]byte
-	for k := 0; k < v.DL; k++ {
-		replies = append(replies, idReply(q, v.Inbox[k], k+1))
-	}
+// dialKind opens a real socket of the given transport kind to a peer that reads one request and then sends the given
+// replies (framed on byte streams).  ok = false: the OS refused the kind (counted as skipped).
+func (r *runner) dialKind(kind string, replies [][]byte) (net.Conn, func(), bool) {
 	stop := make(chan struct{})
-	defer close(stop)
+	var cleanups []func()
+	cleanup := func() {
+		close(stop)
+		for _, f := range cleanups {
+			f()
+		}
+	}
 	var conn net.Conn
 	var err error
 	framed := true
 	skip := func(e error) {
-		r.paths["id-socket-skipped:"+ka.K]++
+		r.paths["id-socket-skipped:"+kind]++
 		_ = e
+		cleanup()
 	}
-	switch ka.K {
+	switch kind {
 	case "tcp", "tcpwrapped", "unix", "unixwrapped", "unixpacket":
 		network, addr := "tcp", "127.0.0.1:0"
-		if ka.K == "unix" || ka.K == "unixwrapped" {
+		if kind == "unix" || kind == "unixwrapped" {
 			network, addr = "unix", sockPath("s")
 		}
-		if ka.K == "unixpacket" {
+		if kind == "unixpacket" {
 			network, addr, framed = "unixpacket", sockPath("p"), false
 		}
 		l, e := net.Listen(network, addr)
 		if e != nil {
 			skip(e)
-			return
+			return nil, nil, false
 		}
-		defer l.Close()
+		cleanups = append(cleanups, func() { l.Close() })
 		go func() {
 			c, e := l.Accept()
 			if e != nil {
@@ -1040,7 +1110,7 @@ func (r *runner) idKind(v *svec, i int, ka kindAdm, waits bool) {
 		}()
 		conn, err = net.Dial(network, l.Addr().String())
 		if err == nil {
-			switch ka.K {
+			switch kind {
 			case "unixwrapped":
 				conn = wrapUnix{conn.(*net.UnixConn)}
 			case "tcpwrapped":
@@ -1051,9 +1121,9 @@ func (r *runner) idKind(v *svec, i int, ka kindAdm, waits bool) {
 		pc, e := net.ListenUDP("udp", &net.UDPAddr{IP: net.IPv4(127, 0, 0, 1)})
 		if e != nil {
 			skip(e)
-			return
+			return nil, nil, false
 		}
-		defer pc.Close()
+		cleanups = append(cleanups, func() { pc.Close() })
 		go func() {
 			_, from, e := pc.ReadFromUDP(make([]byte, 4096))
 			if e != nil {
@@ -1064,7 +1134,7 @@ func (r *runner) idKind(v *svec, i int, ka kindAdm, waits bool) {
 			}
 		}()
 		conn, err = net.Dial("udp", pc.LocalAddr().String())
-		if err == nil && ka.K == "udpwrapped" {
+		if err == nil && kind == "udpwrapped" {
 			conn = wrapUDP{conn.(*net.UDPConn)}
 		}
 	case "unixgram":
@@ -1072,9 +1142,9 @@ func (r *runner) idKind(v *svec, i int, ka kindAdm, waits bool) {
 		pc, e := net.ListenUnixgram("unixgram", sa)
 		if e != nil {
 			skip(e)
-			return
+			return nil, nil, false
 		}
-		defer pc.Close()
+		cleanups = append(cleanups, func() { pc.Close() })
 		go func() {
 			_, from, e := pc.ReadFromUnix(make([]byte, 4096))
 			if e != nil {
@@ -1086,12 +1156,26 @@ func (r *runner) idKind(v *svec, i int, ka kindAdm, waits bool) {
 		}()
 		conn, err = net.DialUnix("unixgram", &net.UnixAddr{Name: sockPath("c"), Net: "unixgram"}, sa)
 	default:
-		hx.Die("unknown transport kind %q in vector", ka.K)
+		hx.Die("unknown transport kind %q in vector", kind)
 	}
 	if err != nil {
 		skip(err)
+		return nil, nil, false
+	}
+	return conn, cleanup, true
+}
+
+func (r *runner) idKind(v *svec, i int, ka kindAdm, waits bool) {
+	q := newQuery(i)
+	var replies [][]byte
+	for k := 0; k < v.DL; k++ {
+		replies = append(replies, idReply(q, v.Inbox[k], k+1))
+	}
+	conn, cleanup, ok := r.dialKind(ka.K, replies)
+	if !ok {
 		return
 	}
+	defer cleanup()
 	r.sum.Evaluations++
 	r.paths["id-socket:"+ka.K]++
 	cl := &dns.Client{Timeout: 3 * time.Second}
@@ -1130,6 +1214,82 @@ func (r *runner) idKind(v *svec, i int, ka kindAdm, waits bool) {
 	r.judgeID(&w, "socket:"+ka.K, q, m, xerr)
 }
 
+func observe(q, m *dns.Msg, xerr error) idRes {
+	switch {
+	case xerr == nil && m.Id == q.Id:
+		return idRes{"ok", replyIdx(m)}
+	case xerr == nil:
+		return idRes{"foreign", replyIdx(m)}
+	case xerr == dns.ErrId:
+		return idRes{"errid", 1}
+	case isTimeout(xerr):
+		return idRes{"timeout", 0}
+	}
+	return idRes{Res: "error"}
+}
+
+// repoint: ONE dns.Conn value makes an exchange over a transport of kind First, is then pointed at a transport of kind
+// Second (co.Conn = ...) and makes another exchange: framing and ID rule of the second exchange are those of Second.
+func (r *runner) repoint(v *svec, i int) {
+	via := "repoint:" + v.First + "->" + v.Second
+	if v.Path != "" && v.Path != via {
+		return
+	}
+	r.enter(v, via)
+	lossy := func(k string) bool { return k == "udp" || k == "udpwrapped" || k == "unixgram" }
+	q1 := newQuery(2 * i)
+	c1, clean1, ok := r.dialKind(v.First, [][]byte{idReply(q1, "mine", 1)})
+	if !ok {
+		return
+	}
+	defer clean1()
+	cl := &dns.Client{Timeout: 3 * time.Second}
+	co := &dns.Conn{Conn: c1}
+	m1, _, err1 := cl.ExchangeWithConn(q1, co)
+	if o := observe(q1, m1, err1); o != (idRes{"ok", 1}) {
+		c1.Close()
+		if lossy(v.First) && o.Res == "timeout" {
+			r.paths["id-socket-lost:"+v.First]++
+			return
+		}
+		w := *v
+		w.Path, w.Res, w.Idx, w.Transport, w.Inbox, w.DL = via, "ok", 1, "first:"+v.First, []string{"mine"}, 1
+		r.judgeID(&w, via, q1, m1, err1)
+		return
+	}
+	q2 := newQuery(2*i + 1)
+	var replies [][]byte
+	for k := 0; k < v.DL; k++ {
+		replies = append(replies, idReply(q2, v.Inbox[k], k+1))
+	}
+	c2, clean2, ok := r.dialKind(v.Second, replies)
+	if !ok {
+		c1.Close()
+		return
+	}
+	defer clean2()
+	c1.Close()
+	co.Conn = c2 // the same Conn value, another transport
+	r.sum.Evaluations++
+	r.paths["id-repoint"]++
+	m2, _, err2 := cl.ExchangeWithConn(q2, co)
+	co.Close()
+	o := observe(q2, m2, err2)
+	for _, a := range v.Admitted {
+		if a == o {
+			return
+		}
+	}
+	if lossy(v.Second) && o.Res == "timeout" {
+		r.paths["id-socket-lost:"+v.Second]++
+		return
+	}
+	w := *v
+	w.Path, w.Res, w.Idx = via, v.Admitted[0].Res, v.Admitted[0].Idx
+	w.Transport = v.Rule + ":" + v.Second + "/repointed"
+	r.judgeID(&w, via+" (one Conn, pointed at another transport between two exchanges)", q2, m2, err2)
+}
+
 var forcePath string // replay <vectors> <path>: run only that path of every vector
 
 func replay(path string) {
@@ -1148,6 +1308,9 @@ func replay(path string) {
 		case "id":
 			seen[fmt.Sprint(v.Transport, v.Inbox, v.DL)] = true
 			r.id(v, i)
+		case "repoint":
+			seen[fmt.Sprint(v.First, v.Second, v.Inbox)] = true
+			r.repoint(v, i)
 		default:
 			hx.Die("unknown vector kind %q", v.Kind)
 		}
@@ -1182,32 +1345,44 @@ type reqFields struct {
 }
 
 type xEvent struct {
-	Ev    string     `json:"ev"`
-	Tr    string     `json:"tr"`
-	C     int        `json:"c"`
-	Round int        `json:"round"`
-	Try   int        `json:"try"`
-	Req   *reqFields `json:"req,omitempty"`  // send, crecv (what came back: id, qname, reply token)
-	Req1  *reqFields `json:"req1,omitempty"` // handle: on entry
-	Req2  *reqFields `json:"req2,omitempty"` // handle: after k later packets were received
-	Same  bool       `json:"same"`           // handle: Pack() on entry == Pack() later
-	Later int        `json:"later"`          // handle: packets received while waiting
-	Dst   int        `json:"dst"`            // send: which server address the request goes to (1 = 127.0.0.1, 2 = 127.0.0.2, ...; 0 = n/a)
-	Src   int        `json:"src"`            // crecv: which server address the reply came from (99 = none of them)
-	Wire  hx.B       `json:"wire,omitempty"` // send: the octets written; handle: Pack() of the request on entry
-	Len   int        `json:"len"`            // recv: number of octets the server's reader returned
-	Buf   int        `json:"buf"`            // get, put, recv: receive buffer (small number per backing array; 0 = not pooled)
-	Inst  int        `json:"inst"`           // recv: c*8+round read from the ID field of the octets as they came off the wire
+	Ev       string     `json:"ev"`
+	Tr       string     `json:"tr"`
+	C        int        `json:"c"`
+	Round    int        `json:"round"`
+	Try      int        `json:"try"`
+	Req      *reqFields `json:"req,omitempty"`  // send, crecv (what came back: id, qname, reply token)
+	Req1     *reqFields `json:"req1,omitempty"` // handle: on entry
+	Req2     *reqFields `json:"req2,omitempty"` // handle: after k later packets were received
+	C0       int        `json:"c0"`             // handle: the client the ResponseWriter named on entry (c: when the reply is written)
+	Deferred bool       `json:"deferred"`       // handle: the reply is written after the handler returned
+	Same     bool       `json:"same"`           // handle: Pack() on entry == Pack() later
+	Later    int        `json:"later"`          // handle: packets received while waiting
+	Dst      int        `json:"dst"`            // send: which server address the request goes to (1 = 127.0.0.1, 2 = 127.0.0.2, ...; 0 = n/a)
+	Src      int        `json:"src"`            // crecv: which server address the reply came from (99 = none of them)
+	Wire     hx.B       `json:"wire,omitempty"` // send: the octets written; handle: Pack() of the request on entry
+	Len      int        `json:"len"`            // recv: number of octets the server's reader returned
+	Buf      int        `json:"buf"`            // get, put, recv: receive buffer (small number per backing array; 0 = not pooled)
+	Inst     int        `json:"inst"`           // recv: c*8+round read from the ID field of the octets as they came off the wire
 }
 
 type logger struct {
-	mu sync.Mutex
-	w  *hx.Writer
+	mu     sync.Mutex
+	w      *hx.Writer
+	closed bool
 }
 
 func (l *logger) emit(e xEvent) {
 	l.mu.Lock()
-	l.w.Emit(e)
+	if !l.closed {
+		l.w.Emit(e)
+	}
+	l.mu.Unlock()
+}
+
+func (l *logger) close() {
+	l.mu.Lock()
+	l.closed = true
+	l.w.Close()
 	l.mu.Unlock()
 }
 
@@ -1460,15 +1635,26 @@ func (h *exHandler) barrier() int {
 func (h *exHandler) ServeDNS(w dns.ResponseWriter, m *dns.Msg) {
 	p1, e1 := m.Pack()
 	f1 := fieldsOf(m)
-	later := h.barrier()
-	p2, e2 := m.Pack()
-	f2 := fieldsOf(m)
-	c := h.clientOf(w.RemoteAddr())
-	h.log.emit(xEvent{Ev: "handle", Tr: h.tr, C: c, Req1: f1, Req2: f2, Same: e1 == nil && e2 == nil && bytes.Equal(p1, p2), Later: later, Wire: hx.FromBytes(p1)})
-	r := new(dns.Msg)
-	r.SetReply(m)
-	r.Extra = []dns.RR{&dns.TXT{Hdr: dns.RR_Header{Name: "tok.", Rrtype: dns.TypeTXT, Class: dns.ClassINET, Ttl: 1}, Txt: []string{hex.EncodeToString(replyTok(f2.Tok.Bytes()))}}}
-	w.WriteMsg(r)
+	c0 := h.clientOf(w.RemoteAddr()) // whom this response writer answers, as seen on entry
+	work := func() {
+		later := h.barrier()
+		p2, e2 := m.Pack()
+		f2 := fieldsOf(m)
+		c := h.clientOf(w.RemoteAddr()) // ... and at the moment of the reply
+		h.log.emit(xEvent{Ev: "handle", Tr: h.tr, C: c, C0: c0, Req1: f1, Req2: f2, Same: e1 == nil && e2 == nil && bytes.Equal(p1, p2), Later: later, Wire: hx.FromBytes(p1),
+			Deferred: m.Id%2 == 1})
+		r := new(dns.Msg)
+		r.SetReply(m)
+		r.Extra = []dns.RR{&dns.TXT{Hdr: dns.RR_Header{Name: "tok.", Rrtype: dns.TypeTXT, Class: dns.ClassINET, Ttl: 1}, Txt: []string{hex.EncodeToString(replyTok(f2.Tok.Bytes()))}}}
+		w.WriteMsg(r)
+	}
+	// Every other request is answered later: the handler keeps its ResponseWriter, returns at once and the reply is
+	// written from another goroutine while the server goes on serving other clients.
+	if m.Id%2 == 1 {
+		go work()
+		return
+	}
+	work()
 }
 
 // Datagrams that never reach a handler, one of each kind in turn: every path of the server that lets go of a receive
@@ -1712,7 +1898,7 @@ func record(tr, out string, N, R int) {
 	wg.Wait()
 	srv.Shutdown()
 	<-done
-	lg.w.Close()
+	lg.close()
 	sum.Evaluations = lg.w.N
 	sum.Nontrivial = int(answered.Load())
 	sum.Note("exchange_"+tr, map[string]int64{"answered": answered.Load(), "lost": lost.Load()})
